@@ -157,7 +157,7 @@ PROPS_EXTRA['C01'] = {
  'rule': 'per encoding (all 40): the empty stream, all 256 one-byte streams, all two-byte streams over a 64-byte class alphabet (every lead/trail/escape/digit range '
          'boundary of every decoder; thorough: all 65536), all three-byte streams over a 16-byte alphabet, 2000 (thorough 50000) seeded streams from '
          'dec::gen_stream (half encoder-produced mostly-valid text with 0-3 byte edits, class-alphabet strings, random bytes, BOM-like prefixes; lengths <= 12, '
-         'every fifth <= 120); targeted: EUC-JP 0x8F/0x8E three- and four-byte forms with every class byte, gb18030/GBK four-byte sequences at pointers 0, 35/36, '
+         'every fifth <= 120); targeted: complete rows (lead x all 256 second bytes) at the special regions of every two-byte index (Big5 0x87/0x88 incl. the four two-code-point pointers, Shift_JIS kana / NEC / IBM / end-user-defined rows, EUC-KR, EUC-JP, gb18030/GBK corners, ISO-2022-JP rows after ESC $ B), EUC-JP 0x8F/0x8E three- and four-byte forms with every class byte, gb18030/GBK four-byte sequences at pointers 0, 35/36, '
          '7456..7458, 39393..39395, 39418..39421, 188999..189001, 1237574..1237577, 1587599 complete / truncated / with every class byte in third and fourth '
          'place and followed by ASCII or a new sequence, every 97th BMP pointer, UTF-8 lead x continuation boundary grids of length 2-4, ISO-2022-JP every pair '
          'of escape fragments after 8 prefixes (each output state, inside a two-byte character) followed by class bytes, UTF-16LE/BE all triples of 8 boundary '
